@@ -104,6 +104,7 @@ type FuncContract struct {
 	Params   []Param
 	Results  []Param
 	Uses     []string // lemmas assumed while verifying this function
+	RecvName string
 }
 
 type ContractFile struct {
@@ -824,7 +825,7 @@ func parseFuncHeader(text string) (*FuncContract, error) {
 			recv = r[0]
 		case 2:
 			recv = r[1]
-			fc.Params = append(fc.Params, Param{Name: r[0], Type: r[1]})
+			fc.RecvName = r[0]
 		default:
 			return nil, fmt.Errorf("bad receiver")
 		}
